@@ -452,6 +452,7 @@ inductive Op where
   | col (h : Nat) (k : String)
   | iter (h : Nat)
   | tup (h : Nat) (ks : List String)
+  | apply (h : Nat) (f : Fn)                       -- d[callable]: one value per row (line 403-404)
   | slice (dst h : Nat) (a b s : Option Int)
   | mask (dst h : Nat) (m : List Bool)
   | take (dst h : Nat) (is : List Int)
@@ -517,6 +518,7 @@ def step (s : Heap) (op : Op) : Heap × Out :=
   | .col h k => withT h fun t => s.query ((t.getColE k).map cellsVal)
   | .iter h => withT h fun t => s.query (.ok (.list (t.iter.map recVal)))
   | .tup h ks => withT h fun t => s.query ((t.getTuple ks).map fun rs => .list (rs.map fun r => .tuple (r.map .cell)))
+  | .apply h f => withT h fun t => s.query ((t.applyFn f).map cellsVal)
   | .slice dst h a b st => withT h fun t => s.bind dst (t.getSlice a b st)
   | .mask dst h m => withT h fun t => s.bind dst (t.getMask m)
   | .take dst h is => withT h fun t => s.bind dst (t.getTake is)
